@@ -10,6 +10,7 @@ import (
 
 	"verifharness/drv"
 	"verifharness/gen"
+	"verifharness/san"
 )
 
 func init() { drv.Register("C07", monC07) }
@@ -423,6 +424,43 @@ func monC07(c *drv.Ctx) {
 			}
 			cs.Count(true, "oversized", cs.Idx)
 			cs.C.Obs("failed loads checked", 1)
+		})
+	}
+
+	// (2b') a Str2Str load with a VALUE longer than 4 GiB (its length does not fit the 4-byte header of the value
+	// store): the load must fail - by an error or by the documented panic - and change nothing, or succeed and
+	// return the value exactly; it must not store a truncated length
+	if !c.Slow() && c.Flavour == "plain" {
+		c.Stage("oversized-value", 2, true, func(cs *drv.Case) {
+			n := 1<<32 + 5
+			mem, free := san.Virtual(n)
+			defer free()
+			mem[0], mem[n-1] = 'H', 'T'
+			hv := unsafe.String(&mem[0], n)
+			wantS := map[string]string{"a": "1", "b": "22", "": "333"}
+			sm := strmap.NewStr2StrFromMap(wantS)
+			kk, vv := []string{"k", "big", "z"}, []string{"v", hv, "w"}
+			if cs.Idx == 1 {
+				kk, vv = []string{"big"}, []string{hv}
+			}
+			var err error
+			var pnc interface{}
+			func() {
+				defer func() { pnc = recover() }()
+				err = sm.LoadFromSlice(kk, vv)
+			}()
+			cs.Desc = M{"value_len": n, "position": cs.Idx, "err": errString(err), "panic": fmt.Sprint(pnc)}
+			if err != nil || pnc != nil {
+				cs.C.Obs("oversized values refused", 1)
+				c07CheckS2S(cs, sm, wantS, []string{"a", "b", "", "k", "big", "z"}, "after a load refused because a value is longer than 4 GiB")
+			} else {
+				got, ok := sm.Get("big")
+				if !ok || len(got) != n || got[0] != 'H' || got[n-1] != 'T' {
+					cs.Fail("strmap-oversized-value-truncated", nil, M{"value_len": n, "got_len": len(got), "present": ok, "message": "a load with a value longer than 4 GiB succeeded but the value does not come back"})
+				}
+				cs.C.Obs("oversized values stored", 1)
+			}
+			cs.Count(true, "oversized-value", cs.Idx)
 		})
 	}
 
